@@ -439,6 +439,123 @@ theorem foldl_LInv (n : Nat) (nbrs : Nat → List Nat) (dist : Nat → Nat → D
     · subst e; exact c3
     · exact c2 j (b j (by omega))
 
+/-! ### the fuel of the seed loop is never the reason it stops
+
+Measure: the number of samples listed so far.  While a seed is waiting, fewer than `n` samples are listed
+(the seed is unprocessed, hence not listed, and the listed positions are distinct positions below `n`);
+every iteration lists one more. -/
+
+/-- a duplicate-free list of positions below `n` has at most `n` entries -/
+theorem nodup_lt_length_le (l : List Nat) (n : Nat) (hnd : l.Nodup) (h : ∀ x ∈ l, x < n) : l.length ≤ n := by
+  have := hnd.length_le_of_subset (l₂ := List.range n) (fun x hx => List.mem_range.mpr (h x hx))
+  simpa using this
+
+/-- while a seed is waiting, fewer than `n` samples are listed -/
+theorem SInv_out_lt (n : Nat) (s : State D) (h : SInv n s) (j : Nat) (hj : j ∈ s.seeds) :
+    s.out.length < n := by
+  obtain ⟨hp, hjn, _⟩ := h.sok j hj
+  have hnot : j ∉ s.out.map (·.index) := by
+    intro hm; rw [h.mem j, hp] at hm; exact absurd hm (by simp)
+  have hnd : (j :: s.out.map (·.index)).Nodup := List.nodup_cons.mpr ⟨hnot, h.nd⟩
+  have hlt : ∀ x ∈ j :: s.out.map (·.index), x < n := by
+    intro x hx
+    rcases List.mem_cons.mp hx with e | e
+    · exact e ▸ hjn
+    · have hpx := (h.mem x).mp e
+      unfold isProcessed at hpx
+      rw [← h.plen]
+      cases hg : s.processed[x]? with
+      | none => rw [hg] at hpx; simp at hpx
+      | some b => exact (List.getElem?_eq_some_iff.mp hg).1
+  have := nodup_lt_length_le _ n hnd hlt
+  simp only [List.length_cons, List.length_map] at this
+  omega
+
+/-- **the seed loop ends because the seed list is empty**, whenever the fuel covers the samples not yet
+listed (`n ≤ listed + fuel`) -/
+theorem seedLoop_seeds_empty (n : Nat) (nbrs : Nat → List Nat) (dist : Nat → Nat → D) (mp : Nat)
+    (hrange : ∀ i, ∀ j ∈ nbrs i, j < n) :
+    ∀ fuel (s : State D), SInv n s → n ≤ s.out.length + fuel →
+      (seedLoop nbrs dist mp fuel s).seeds = [] := by
+  intro fuel
+  induction fuel with
+  | zero =>
+    intro s h hn
+    show s.seeds = []
+    apply List.eq_nil_iff_forall_not_mem.mpr
+    intro j hj
+    have := SInv_out_lt n s h j hj
+    omega
+  | succ fuel ih =>
+    intro s h hn
+    unfold seedLoop
+    split
+    · rename_i hs
+      have hl := (List.mergeSort_perm s.seeds (fun a b => decide (b ≤ a))).length_eq
+      rw [hs] at hl
+      exact List.eq_nil_of_length_eq_zero hl.symm
+    · rename_i j0 rest hs
+      apply ih _ (seedStep_SInv n nbrs dist mp hrange s h j0 rest hs)
+      obtain ⟨j, r, e⟩ := seedStep_out nbrs dist mp s (j0 :: rest) j0
+      rw [e, List.length_append, List.length_singleton]
+      omega
+
+/-- more fuel than that changes nothing -/
+theorem seedLoop_fuel_irrelevant (n : Nat) (nbrs : Nat → List Nat) (dist : Nat → Nat → D) (mp : Nat)
+    (hrange : ∀ i, ∀ j ∈ nbrs i, j < n) :
+    ∀ fuel (s : State D), SInv n s → n ≤ s.out.length + fuel →
+      seedLoop nbrs dist mp (fuel + 1) s = seedLoop nbrs dist mp fuel s := by
+  intro fuel
+  induction fuel with
+  | zero =>
+    intro s h hn
+    have he : s.seeds = [] := seedLoop_seeds_empty n nbrs dist mp hrange 0 s h hn
+    unfold seedLoop
+    rw [he]
+    simp
+  | succ fuel ih =>
+    intro s h hn
+    rw [seedLoop.eq_2 nbrs dist mp s (fuel + 1), seedLoop.eq_2 nbrs dist mp s fuel]
+    split
+    · rfl
+    · rename_i j0 rest hs
+      apply ih _ (seedStep_SInv n nbrs dist mp hrange s h j0 rest hs)
+      obtain ⟨j, r, e⟩ := seedStep_out nbrs dist mp s (j0 :: rest) j0
+      rw [e, List.length_append, List.length_singleton]
+      omega
+
+/-- outer loop: an empty seed list stays empty (the seed loop it starts runs to its end) -/
+theorem outerStep_seeds_empty (n : Nat) (nbrs : Nat → List Nat) (dist : Nat → Nat → D) (mp : Nat)
+    (hrange : ∀ i, ∀ j ∈ nbrs i, j < n) (s : State D) (i : Nat) (hi : i < n) (h : LInv n s)
+    (he : s.seeds = []) : (outerStep nbrs dist mp n s i).seeds = [] := by
+  unfold outerStep
+  split
+  · exact he
+  · rename_i hp
+    have hp' : isProcessed s.processed i = false := by simpa using hp
+    simp only
+    split
+    · rename_i cd hc
+      have l1 := LInv_list n s h i hp' hi (setCore s.pts i (some cd))
+        (by rw [length_setCore]; exact h.ptlen) [] (some cd) (getReach (setCore s.pts i (some cd)) i)
+      have s1 : SInv n _ := ⟨l1, List.nodup_nil, fun j hj => absurd hj List.not_mem_nil⟩
+      have s2 := getSeeds_SInv n nbrs dist hrange i cd _ s1
+      have s3 := seedLoop_seeds_empty n nbrs dist mp hrange (n + 1) _ s2 (by omega)
+      simpa [hc] using s3
+    · exact he
+
+theorem foldl_seeds_empty (n : Nat) (nbrs : Nat → List Nat) (dist : Nat → Nat → D) (mp : Nat)
+    (hrange : ∀ i, ∀ j ∈ nbrs i, j < n) :
+    ∀ k, k ≤ n → ((List.range k).foldl (outerStep nbrs dist mp n) (init n)).seeds = [] := by
+  intro k
+  induction k with
+  | zero => intro _; simp [init]
+  | succ k ih =>
+    intro hk
+    rw [List.range_succ, List.foldl_append]
+    exact outerStep_seeds_empty n nbrs dist mp hrange _ k (by omega)
+      (foldl_LInv n nbrs dist mp hrange k (by omega)).1 (ih (by omega))
+
 end once
 
 /-! ## reachability: every defined reachability has a core witness listed earlier -/
